@@ -6,7 +6,8 @@
    quantified and constrained by the two hypotheses that tools/props/c20.py MEASURES with
    the compiler in the loop:
      R1   strip_ws (tokenize_print s) = strip_ws s
-     R2   finite x -> reread x = Some x       R2s  reread x = Some y -> y = x            *)
+     R2   finite x -> reread x = Some x       R2s  reread x = Some y -> y = x
+   (finite = the parsers' own test is_finite since repair 59b028d: accepted values are finite) *)
 From Coq Require Import ZArith NArith List Bool Floats String.
 From SV Require Import Base.Num Base.Outcome Base.Str Model.Poly Model.Parse Model.Macro Proofs.Macro.
 Import ListNotations.
@@ -109,6 +110,38 @@ Check c20_expansion_error :
                  macro_inter U tokenize_print reread s = XCompileError e).
 Print Assumptions c20_expansion_error.
 
+(* since repair 59b028d an accepted polynomial has only finite numbers (on every instance whose
+   constants 0, 1, -1 are finite: Num has no laws) ... *)
+Theorem c20_accepted_is_finite :
+  forall (T : Type) (NT : Num T), @fin_consts T NT -> forall (U : UClass),
+    (forall s p, parse_simple U s = Ok p -> Forall (fun x => is_finite x = true) (floats_simple p)) /\
+    (forall s p, parse_inter U s = Ok p -> Forall (fun x => is_finite x = true) (floats_inter p)).
+Proof. exact (fun T NT FC U => conj (@Proofs.Macro.parse_simple_finite T NT FC U) (@Proofs.Macro.parse_inter_finite T NT FC U)). Qed.
+Check c20_accepted_is_finite :
+  forall (T : Type) (NT : Num T), @fin_consts T NT -> forall (U : UClass),
+    (forall s p, parse_simple U s = Ok p -> Forall (fun x => is_finite x = true) (floats_simple p)) /\
+    (forall s p, parse_inter U s = Ok p -> Forall (fun x => is_finite x = true) (floats_inter p)).
+Print Assumptions c20_accepted_is_finite.
+
+(* ... so the value half needs no finiteness side condition: EVERY accepted text expands to the
+   runtime value (R2 stated with the parsers' own finiteness test) *)
+Theorem c20_expansion_value_total :
+  forall (T : Type) (NT : Num T), @fin_consts T NT ->
+  forall (U : UClass) (tokenize_print : str -> str) (reread : T -> option T),
+    (forall s, strip_ws (tokenize_print s) = strip_ws s) ->
+    (forall x, is_finite x = true -> reread x = Some x) ->
+    (forall s p, parse_simple U s = Ok p -> macro_simple U tokenize_print reread s = XValue p) /\
+    (forall s p, parse_inter U s = Ok p -> macro_inter U tokenize_print reread s = XValue p).
+Proof. exact (@Proofs.Macro.expansion_value_total). Qed.
+Check c20_expansion_value_total :
+  forall (T : Type) (NT : Num T), @fin_consts T NT ->
+  forall (U : UClass) (tokenize_print : str -> str) (reread : T -> option T),
+    (forall s, strip_ws (tokenize_print s) = strip_ws s) ->
+    (forall x, is_finite x = true -> reread x = Some x) ->
+    (forall s p, parse_simple U s = Ok p -> macro_simple U tokenize_print reread s = XValue p) /\
+    (forall s p, parse_inter U s = Ok p -> macro_inter U tokenize_print reread s = XValue p).
+Print Assumptions c20_expansion_value_total.
+
 (* never a silently different polynomial: an expansion that is a value is the runtime value *)
 Theorem c20_never_silently_different :
   forall (T : Type) (NT : Num T) (U : UClass) (tokenize_print : str -> str),
@@ -139,6 +172,17 @@ Proof.
   exact (conj respace_lines_R1 (conj respace_lines_changes (conj float_reread_R2 float_reread_R2s))).
 Qed.
 
+(* non-vacuity of c20_expansion_value_total: the executed instance (f64, the extracted Unicode
+   table, `{:?}` refusing exactly inf/NaN) meets fin_consts and R2, so R1 alone remains *)
+Example c20_expansion_value_float :
+  forall tokenize_print : str -> str,
+    (forall s, strip_ws (tokenize_print s) = strip_ws s) ->
+    (forall s p, @parse_simple float FNum uclass_tab s = Ok p ->
+                 macro_simple uclass_tab tokenize_print float_reread s = XValue p) /\
+    (forall s p, @parse_inter float FNum uclass_tab s = Ok p ->
+                 macro_inter uclass_tab tokenize_print float_reread s = XValue p).
+Proof. exact Proofs.Macro.expansion_value_float. Qed.
+
 (* concrete expansions of the float instance under that printer: a value in each grammar ... *)
 Example c20_example_simple :
   macro_simple uclass_tab respace_lines float_reread (of_string "2.5x^2 - x + 0.1")
@@ -161,10 +205,18 @@ Example c20_example_error :
   /\ macro_inter uclass_tab respace_lines float_reread (of_string "x^1/0") = XCompileError EInvalidFractionalExponent.
 Proof. exact example_error. Qed.
 
-(* the hypothesis "finite" of c20_expansion_value cannot be dropped: a 310-digit coefficient
-   parses to +inf at run time and the macro's expansion does not resolve (finding F20a) *)
-Example c20_nonfinite_gap :
-  exists p, @parse_simple float FNum uclass_tab (digits310 ++ of_string "x") = Ok p
-         /\ s_coefs p = [0%float; infinity]
-         /\ macro_simple uclass_tab respace_lines float_reread (digits310 ++ of_string "x") = XUnresolved.
-Proof. exact nonfinite_gap. Qed.
+(* the former gap F20a (a 310-digit coefficient parsed to +inf at run time while the macro's
+   expansion named `inf`) is closed by repair 59b028d: both sides reject the text, with the same
+   error; likewise an overflowing exponent and like powers whose sum overflows *)
+Example c20_nonfinite_rejected :
+  @parse_simple float FNum uclass_tab (digits310 ++ of_string "x") = Err EInvalidCoefficient
+  /\ macro_simple uclass_tab respace_lines float_reread (digits310 ++ of_string "x") = XCompileError EInvalidCoefficient
+  /\ @parse_inter float FNum uclass_tab (of_string "x^" ++ digits310) = Err EInvalidExponent
+  /\ macro_inter uclass_tab respace_lines float_reread (of_string "x^" ++ digits310) = XCompileError EInvalidExponent
+  /\ @parse_simple float FNum uclass_tab (of_string "2" ++ repeat 48%N 308 ++ of_string "x + 2" ++ repeat 48%N 308 ++ of_string "x")
+     = Err EInvalidCoefficient.
+Proof. exact nonfinite_rejected. Qed.
+
+(* the constants hypothesis of c20_accepted_is_finite holds for the float instance *)
+Example c20_fin_consts_float : @fin_consts float FNum.
+Proof. exact fin_consts_float. Qed.
